@@ -33,6 +33,28 @@ def check_c01(tier, seed, replay=None):
                           'n <= %d' % T(tier, 40, 80)])
 
 
+def oracle_vs_networkx(binary, seed, n, max_n):
+    """second, independent validation of the C++ oracle: the same generator's graphs re-solved by networkx (tooling venv)"""
+    import shutil, subprocess
+    py = shutil.which('python3-vt')
+    if not py:
+        return dict(skipped='python3-vt (networkx) not on PATH')
+    try:
+        out = subprocess.run([binary, '--mode', 'oracle', '--seed', str(seed + 99), '--from', '0', '--to', str(n), '--samples', str(n), '--opt', 'max_n=%d' % max_n], stdout=subprocess.PIPE, text=True, timeout=1800).stdout
+        lines = []
+        for l in out.splitlines():
+            if l.startswith('E '):
+                d = json.loads(l.split(' ', 2)[2])
+                if 'sample' in d:
+                    lines.append(json.dumps(d['sample']))
+        r = subprocess.run([py, os.path.join(lib.VERIF, 'vp', 'nx_oracle.py')], input='\n'.join(lines) + '\n', stdout=subprocess.PIPE, stderr=subprocess.PIPE, text=True, timeout=3600)
+        if r.returncode != 0:
+            return dict(skipped='networkx run failed: ' + r.stderr[-200:])
+        return json.loads(r.stdout.strip().splitlines()[-1])
+    except Exception as e:
+        return dict(skipped='networkx cross-check not run: %s' % e)
+
+
 def check_c02(tier, seed, replay=None):
     v = Verdict('C02', tier, seed)
     bins = build_many([('h_exact', 'plain'), ('h_exact', 'asan')])
@@ -41,10 +63,13 @@ def check_c02(tier, seed, replay=None):
     v.absorb(agg)
     agg2 = run_cases(bins[('h_exact', 'asan')], 'c02', seed + 1000003, T(tier, 120, 2500), opts=dict(max_n=T(tier, 20, 36)), env=ASAN_ENV, source='h_exact(asan+asserts):c02')
     v.absorb(agg2)
+    nx = oracle_vs_networkx(bins[('h_exact', 'plain')], seed, T(tier, 120, 3000), T(tier, 22, 30))
+    if nx.get('n_disagreements'):
+        v.failures.append('Horton+Gauss oracle disagrees with networkx.minimum_cycle_basis: %s' % json.dumps(nx['disagreements'])[:600])
     cov = base_coverage(agg, 'generated graphs biased to ties (unit/{1,2}/{1,2,3} weights, grids, hypercubes, K_ab, theta graphs); oracle = Horton candidates + GF(2) elimination in exact '
                         'integers, self-validated against brute force over all simple cycles on small graphs in every process; non-trivial = cycle space dimension >= 2',
                         dict(variants=['mcb_sva_signed', 'mcb_sva_fvs_trees', 'mcb_sva_iso_trees'], executions=agg.evaluations * 3,
-                             tie_rich_nontrivial=agg.tags.get('tie_rich', 0),
+                             tie_rich_nontrivial=agg.tags.get('tie_rich', 0), oracle_cross_validation_networkx=nx,
                              asan_assert_slice=dict(evaluations=agg2.evaluations, sanitizer_reports=len(agg2.sanitizer_reports))))
     return v.finish(cov, ['Horton+Gauss oracle (cross-checked against brute force every run)', 'weights exactly summable (integers / dyadic doubles / int)'])
 
